@@ -42,19 +42,25 @@ Definition taken_on (sc : script) (t t' : tower) (u loc : N) (b : blob) (delay s
               exists p, decrypt b d = Some p /\ status_rejected (TowerBreach.breach_status sc t p) = true) /\
              TowerBreach.dropped t' (loc, u)).
 
+(* Hypothesis `forall u, user_row_ok t u` (every user the gatekeeper's memory holds has its row in the table; Tower.v):
+   since the race repairs a request of a user whose row has vanished is refused after the charge instead of aborting,
+   and the specifications of add_appointment are stated for states in which that cannot happen.  It holds in every
+   reachable state: TowerInv.inv_user_rows : Inv t -> forall u, user_row_ok t u. *)
 Theorem receipt_only_if_taken_on le t sc signer loc b delay sig t' st sg sl e :
+  (forall u, user_row_ok t u) ->
   step le t (OAdd signer loc b delay sig) sc = (t', OAddRes (AddOk st sg sl e)) ->
   exists u, signer = Some u /\ taken_on sc t t' u loc b delay sig.
 Proof.
+  intros Hrows. assert (Hrowsf : forall u, user_row_ok (fresh t) u) by exact Hrows.
   cbn [step]. change (set_rpc_log t []) with (fresh t).
   destruct (w_add_appointment sc (fresh t) signer loc b delay sig) as [r t1|s t1] eqn:Ea; cbn [wrap]; [|discriminate].
   intros H. injection H as E1 E2. subst t1 r.
   destruct (TowerBreach.w_add_appointment_inner sc (fresh t) signer loc b delay sig _ t' Ea)
-    as [[_ []]|[u [ui [av [t1 [Hs [_ [_ [Hnt _]]]]]]]]].
+    as [[_ []]|[[u [ui [av [t1 [Hs [_ [_ [Hnt _]]]]]]]]|[u [t1 [_ [_ [_ [_ [_ Hr]]]]]]]]]; [|discriminate].
   change (db_trks (fresh t)) with (db_trks t) in Hnt.
   exists u. split; [exact Hs|]. unfold taken_on. change (w_height t) with (w_height (fresh t)).
   destruct (ti_get (w_cache t) loc) as [d|] eqn:Ec.
-  - pose proof (TowerBreach.add_appointment_triggered sc (fresh t) signer loc b delay sig d _ t' Ec Ea) as H.
+  - pose proof (TowerBreach.add_appointment_triggered sc (fresh t) signer loc b delay sig d _ t' Hrowsf Ec Ea) as H.
     cbv beta iota in H. destruct H as [u' [Hs' [_ [_ [_ [_ H]]]]]].
     assert (u' = u) by congruence. subst u'.
     destruct (decrypt b d) as [p|] eqn:Ed.
@@ -66,7 +72,7 @@ Proof.
         -- right. right. exists d. split; [reflexivity|]. split; [right; exists p; auto|exact (Hrej eq_refl)].
         -- left. exact (Hnei eq_refl eq_refl).
     + right. right. exists d. split; [reflexivity|]. split; [left; exact Ed|exact (proj1 H)].
-  - pose proof (TowerBreach.add_appointment_stored sc (fresh t) signer loc b delay sig _ t' Ec Ea) as H.
+  - pose proof (TowerBreach.add_appointment_stored sc (fresh t) signer loc b delay sig _ t' Hrowsf Ec Ea) as H.
     cbv beta iota in H. destruct H as [u' [Hs' [_ [_ [Hf [_ [Hk _]]]]]]].
     assert (u' = u) by congruence. subst u'. left. split; [exact Hf|]. rewrite Hk. exact Hnt.
 Qed.
@@ -86,7 +92,7 @@ Proof.
   fold t in F6. rewrite F6.
   assert (Hstep : step le t (OAdd signer loc b delay sig) sc = (fst (step le t (OAdd signer loc b delay sig) sc), OAddRes (AddOk st sg sl e))).
   { rewrite <- Hx. apply step_eq. }
-  destruct (receipt_only_if_taken_on le t sc signer loc b delay sig _ st sg sl e Hstep) as [u [Hs Ht]].
+  destruct (receipt_only_if_taken_on le t sc signer loc b delay sig _ st sg sl e (inv_user_rows t (bi_inv t F2)) Hstep) as [u [Hs Ht]].
   destruct (add_receipt_fields le t sc signer loc b delay sig _ st sg sl e Hstep) as [Hsg [Hst _]].
   exists u. auto.
 Qed.
@@ -138,9 +144,9 @@ Proof.
                     | _ => t1 = fresh t
                     end).
     { destruct (ti_get (w_cache (fresh t)) loc) as [d|] eqn:Ec.
-      - pose proof (TowerBreach.add_appointment_triggered sc (fresh t) signer loc b delay sig d r t1 Ec Ew) as H.
+      - pose proof (TowerBreach.add_appointment_triggered sc (fresh t) signer loc b delay sig d r t1 (inv_user_rows (fresh t) (TowerBreach.inv_fresh t HI)) Ec Ew) as H.
         destruct r; try exact H. destruct H as [u [Hs [_ [_ [_ [Hoth _]]]]]]. exists u. split; assumption.
-      - pose proof (TowerBreach.add_appointment_stored sc (fresh t) signer loc b delay sig r t1 Ec Ew) as H.
+      - pose proof (TowerBreach.add_appointment_stored sc (fresh t) signer loc b delay sig r t1 (inv_user_rows (fresh t) (TowerBreach.inv_fresh t HI)) Ec Ew) as H.
         destruct r; try exact H. destruct H as [u [Hs [_ [_ [_ [Hoth _]]]]]]. exists u. split; assumption. }
     destruct r as [st sg sl e| | |]; try (rewrite Hcase; auto).
     destruct Hcase as [u [-> [Hoa Hok]]]. cbn [app_may_end] in Hend. apply TowerBreach.uuid_eqb_neq in Hend.
@@ -281,7 +287,7 @@ Proof.
   set (t := fst (run le t0 pre)) in *.
   assert (Hstep : step le t (OAdd (Some u) loc b delay sig) sc = (fst (step le t (OAdd (Some u) loc b delay sig) sc), OAddRes (AddOk st sg sl e))).
   { rewrite <- Hx. apply step_eq. }
-  destruct (receipt_only_if_taken_on le t sc (Some u) loc b delay sig _ st sg sl e Hstep) as [u' [Hs Ht]].
+  destruct (receipt_only_if_taken_on le t sc (Some u) loc b delay sig _ st sg sl e (inv_user_rows t (bi_inv t F2)) Hstep) as [u' [Hs Ht]].
   injection Hs as <-. fold pre' in F6. rewrite <- F6 in Ht.
   assert (Hf : find_app (db_apps (fst (run le t0 pre'))) (loc, u) = Some a).
   { destruct Ht as [[A _]|[[d [p [_ [_ [_ [A _]]]]]]|[d [_ [_ [A _]]]]]]; [exact A|exact A|contradiction]. }
@@ -378,7 +384,7 @@ Proof.
       * destruct (aget (db_users t) u); reflexivity.
   - (* add *)
     cbn [window_after]. destruct r as [st sg sl e| | |];
-      try exact (same_ledger_window t t' u (TowerLedger.add_refused_same le t signer loc b delay sig sc t' _ Es)).
+      try exact (same_ledger_window t t' u (TowerLedger.add_refused_same le t signer loc b delay sig sc t' _ (inv_user_rows t HI) Es)).
     destruct (TowerLedger.add_ok_shape le t signer loc b delay sig sc t' st sg sl e HI Es) as [u0 [ui [_ [Eu [_ [_ [Hu' _]]]]]]].
     unfold window. rewrite Hu', aget_map_update. destruct (N.eqb u u0) eqn:Ev; [|reflexivity].
     apply N.eqb_eq in Ev. subst u. rewrite Eu. reflexivity.
@@ -546,7 +552,8 @@ Proof.
     destruct (find_trk (db_trks (fresh t)) (loc, u)); [reflexivity|].
     unfold gk_add_update_appointment, gk_get. change (gk_users (fresh t)) with (gk_users t). rewrite Eg.
     match goal with |- context [if ?c then _ else _] => destruct c end; cbn [bind]; [|reflexivity].
-    match goal with |- context [bind ?r _] => destruct r as [[] t2|s t2] end; reflexivity.
+    match goal with |- context [bind ?r _] => destruct r as [[] t2|s t2] end; cbn [bind]; [|reflexivity].
+    match goal with |- context [if ?c then _ else _] => destruct c end; reflexivity.
   - unfold w_get_appointment, authenticate. change (gk_users (fresh t)) with (gk_users t). rewrite Hm.
     unfold gk_get. change (gk_users (fresh t)) with (gk_users t). rewrite Eg.
     change (gk_height (fresh t)) with (gk_height t).
@@ -674,7 +681,7 @@ Proof.
       destruct (w_add_appointment sc (fresh t) signer loc b delay sig) as [r t1|] eqn:Ew; cbn [wrap] in Hstep;
         injection Hstep as <- <-; [|destruct Hna].
       cbn [no_trigger_at] in Hnt. destruct (ti_get (w_cache t) loc) eqn:Ec; [discriminate|].
-      pose proof (TowerBreach.add_appointment_stored sc (fresh t) signer loc b delay sig r t1 Ec Ew) as H.
+      pose proof (TowerBreach.add_appointment_stored sc (fresh t) signer loc b delay sig r t1 (inv_user_rows (fresh t) (TowerBreach.inv_fresh t HI)) Ec Ew) as H.
       destruct r; try (rewrite H; exact Hk0). destruct H as [u [_ [_ [_ [_ [_ [H _]]]]]]]. rewrite H. exact Hk0.
     + destruct (get_unchanged le t sc signer loc) as [r Hr]. rewrite Hr in Hstep. injection Hstep as <- <-. exact Hk0.
     + destruct (getsub_unchanged le t sc signer) as [r Hr]. rewrite Hr in Hstep. injection Hstep as <- <-. exact Hk0.
